@@ -447,7 +447,10 @@ ATTR_NAMES = ["x", "exposed_x", "only", "exposed_only", "m", "exposed_m", "self"
               "__subclasses__", "__globals__", "__code__", "func_globals", "__reduce_ex__", "_rpyc_getattr"]
 SIMPLE_VALUES = [None, True, False, 0, 1, 2, -1, 5, 1.0, 2.5, "a", "ab", "", b"", b"ab", (), (1,), (1, 2), (1, 2, 3), "abc",
                  frozenset([1, 2]), frozenset(), slice(1, 2, 3), Ellipsis, NotImplemented, complex(1, 0), 10 ** 30, float("nan"),
-                 ("a", 1, 2), ((1, 2),), (("a", "b"),), "\ud800", 3.0, 4.0, 7.0, 1 + 0j]
+                 ("a", 1, 2), ((1, 2),), (("a", "b"),), "\ud800", 3.0, 4.0, 7.0, 1 + 0j,
+                 "__import__('c07canmod_a')", "__import__('handlers_world').HITS.denied_call.append(('code', 'ran'))"]
+CODE_STRINGS = ["__import__('c07canmod_a')", "__import__('handlers_world').HITS.denied_call.append(('code', 'ran'))",
+                "__import__('pickle').dumps(0)"]
 
 
 class Gen:
@@ -625,6 +628,9 @@ class Gen:
         elif h == 20:
             items = [obj(), (1, r.choice([self.idpack(), (r.choice(BUILTIN_NAMES), 1, 2), ("builtins.int",), 5,
                                           (r.choice(FOREIGN_NAMES), r.below(4), 0)]))]
+        elif r.chance(1, 2):
+            # an id that is not a handler: if something answers to it, let it meet text that would do harm if evaluated
+            items = [(1, r.choice(CODE_STRINGS))] + [self.pkg() for _ in range(r.below(2))]
         else:
             items = [self.pkg() for _ in range(r.below(4))]
         k = r.below(14)
